@@ -129,7 +129,8 @@ def origins(body, operand, depth=0, seen=None, through=None):
             out |= origins(body, rv["a"], depth + 1, seen, through)
         elif rv["k"] == "ref":
             rp = rv["place"]
-            if len(rp["p"]) == 1 and rp["p"][0]["k"] == "deref":
+            if (not rp["p"] or rp["p"][0]["k"] == "deref") and not (0 < rp["l"] <= body.arg_count):
+                # reference to (a part of) what local rp.l points to: derived from that local
                 out |= origins(body, {"k": "copy", "place": {"l": rp["l"], "p": []}}, depth + 1, seen, through)
             else:
                 out.add(("place", resolve_place(body, rp)))
@@ -177,4 +178,155 @@ def mut_borrows_of(body, field_path_regex):
             rp = resolve_place(body, rv["place"])
             if rx.search(rp):
                 out.append((i, si, rp))
+    return out
+
+
+# ---- constant enum values behind references (incl. promoted constants) -------------------------
+def _promoted_index(c):
+    m = re.search(r"promoted\[(\d+)\]", c.get("text", "") or "")
+    return int(m.group(1)) if (m and c.get("promoted")) else None
+
+
+def promoted_aggs(body, k):
+    """all aggregate / constant-use rvalues inside promoted constant k of the body"""
+    out = []
+    pr = body.j.get("promoted", [])
+    if k is None or k >= len(pr):
+        return out
+    for blk in pr[k]["blocks"]:
+        for s in blk["stmts"]:
+            if s["k"] == "assign":
+                rv = s["rv"]
+                if rv["k"] == "agg":
+                    out.append(rv)
+                elif rv["k"] == "use" and rv["a"]["k"] == "const":
+                    out.append({"k": "const", "c": rv["a"]["c"]})
+    return out
+
+
+def value_variants(body, operand, depth=0):
+    """Set of 'Adt::Variant' names of enum aggregates the operand's value is (or points to, or
+    wraps: Some(&Damaged) yields both Option::Some and CellMark::Damaged); also ('int', n) consts."""
+    out = set()
+    if depth > 10:
+        return out
+    if operand["k"] == "const":
+        c = operand["c"]
+        k = _promoted_index(c)
+        if k is not None:
+            for rv in promoted_aggs(body, k):
+                if rv["k"] == "agg" and rv["ak"] == "adt":
+                    out.add("%s::%s" % (rv["adt"], rv["variant"]))
+                elif rv["k"] == "const" and "int" in rv["c"]:
+                    out.add(("int", int(rv["c"]["int"])))
+        elif "int" in c:
+            out.add(("int", int(c["int"])))
+        return out
+    p = operand["place"]
+    l = p["l"]
+    ds = body.defs_of(l)
+    for bb, si, rv in ds:
+        if si == "term":
+            continue
+        if rv["k"] == "agg" and rv["ak"] == "adt":
+            out.add("%s::%s" % (rv["adt"], rv["variant"]))
+            for f in rv["fields"]:
+                out |= value_variants(body, f, depth + 1)
+        elif rv["k"] in ("use", "cast"):
+            out |= value_variants(body, rv["a"], depth + 1)
+        elif rv["k"] == "ref":
+            out |= value_variants(body, {"k": "copy", "place": {"l": rv["place"]["l"], "p": []}}, depth + 1)
+    return out
+
+
+def ok_return_blocks(body):
+    """blocks that assign `_0 = Result::Ok(..)` / `Some(..)` (success exits)"""
+    out = set()
+    for i, si, s in body.assigns():
+        if s["place"]["l"] == 0 and not s["place"]["p"] and s["rv"]["k"] == "agg" and s["rv"].get("variant") in ("Ok", "Some"):
+            out.add(i)
+    return out
+
+
+def err_return_blocks(body):
+    """blocks that produce an error/none return value: `_0 = Err(..)`/from_residual(..)"""
+    out = set()
+    for i, b in enumerate(body.blocks):
+        if b["cleanup"]:
+            continue
+        for s in b["stmts"]:
+            if s["k"] == "assign" and s["place"]["l"] == 0 and not s["place"]["p"] and s["rv"]["k"] == "agg" and s["rv"].get("variant") in ("Err", "None"):
+                out.add(i)
+        t = b["term"]
+        if t["k"] == "call" and t["dest"]["l"] == 0 and not t["dest"]["p"] and call_matches(t, r"FromResidual.*::from_residual$"):
+            out.add(i)
+    return out
+
+
+def feasible_reach(body, start, stop=(), env=None, limit=20000):
+    """Blocks reachable from `start` under a tiny constant propagation of integer/bool locals
+    (assign const, copy, Not): at a switch on a local with a known value only the matching edge is
+    followed.  `stop` blocks are not expanded.  Used to discard infeasible paths through
+    `matches!`-style bool temporaries."""
+    env = dict(env or {})
+    seen = set()
+    out = set()
+    st = [(start, tuple(sorted(env.items())))]
+    n = 0
+    while st:
+        bb, e = st.pop()
+        if (bb, e) in seen:
+            continue
+        seen.add((bb, e))
+        out.add(bb)
+        n += 1
+        if n > limit:
+            return None
+        if bb in stop and bb != start:
+            continue
+        env2 = dict(e)
+        blk = body.blocks[bb]
+        for s in blk["stmts"]:
+            if s["k"] != "assign":
+                continue
+            pl = s["place"]
+            if pl["p"]:
+                continue
+            l = pl["l"]
+            rv = s["rv"]
+            val = None
+            if rv["k"] == "use":
+                a = rv["a"]
+                if a["k"] == "const" and "int" in a["c"]:
+                    val = int(a["c"]["int"])
+                elif a["k"] in ("copy", "move") and not a["place"]["p"]:
+                    val = env2.get(a["place"]["l"])
+            elif rv["k"] == "un" and rv["op"] == "Not":
+                a = rv["a"]
+                v = None
+                if a["k"] == "const" and "int" in a["c"]:
+                    v = int(a["c"]["int"])
+                elif a["k"] in ("copy", "move") and not a["place"]["p"]:
+                    v = env2.get(a["place"]["l"])
+                if v is not None and body.local_ty(l) == "bool":
+                    val = 0 if v else 1
+            if val is None:
+                env2.pop(l, None)
+            else:
+                env2[l] = val
+        t = blk["term"]
+        if t["k"] == "call" and not t["dest"]["p"]:
+            env2.pop(t["dest"]["l"], None)
+        succ = body.succs(bb)
+        if t["k"] == "switch":
+            dl = op_local(t["d"])
+            if dl is not None and dl in env2:
+                v = str(env2[dl])
+                if v in t["vals"]:
+                    succ = [t["targets"][t["vals"].index(v)]]
+                else:
+                    succ = [t["otherwise"]]
+        e2 = tuple(sorted(env2.items()))
+        for s2 in succ:
+            st.append((s2, e2))
     return out
